@@ -15,7 +15,7 @@ def _z(v):
   if isinstance(v, bool):
     return z3.BoolVal(v)
   if isinstance(v, (int, np.integer)):
-    return z3.RealVal(int(v))
+    return z3.IntVal(int(v))
   if isinstance(v, (float, np.floating)):
     return z3.RealVal(repr(float(v)))
   if isinstance(v, z3.ExprRef):
@@ -30,6 +30,10 @@ def _num(t):
   if z3.is_int(t):
     return z3.ToReal(t)
   return t
+
+
+def _DIV(a, b):
+  return _num(a) / _num(b)
 
 
 class S:
@@ -48,7 +52,9 @@ class S:
   def _bin(self, o, f, rev=False):
     if not S._ok(o):
       return NotImplemented
-    a, b = _num(self.t), _num(_z(o))
+    a, b = self.t, _z(o)
+    if not (z3.is_int(a) and z3.is_int(b) and f is not _DIV):
+      a, b = _num(a), _num(b)          # integer arithmetic only when both are ints
     if rev:
       a, b = b, a
     return S(z3.simplify(f(a, b)))
@@ -59,9 +65,16 @@ class S:
   def __rsub__(self, o): return self._bin(o, lambda a, b: a - b, True)
   def __mul__(self, o): return self._bin(o, lambda a, b: a * b)
   def __rmul__(self, o): return self._bin(o, lambda a, b: a * b, True)
-  def __truediv__(self, o): return self._bin(o, lambda a, b: a / b)
-  def __rtruediv__(self, o): return self._bin(o, lambda a, b: a / b, True)
-  def __neg__(self): return S(-_num(self.t))
+  def __truediv__(self, o): return self._bin(o, _DIV)
+  def __rtruediv__(self, o): return self._bin(o, _DIV, True)
+
+  def __mod__(self, o):
+    a, b = self.t, _z(o)
+    if not (z3.is_int(a) and z3.is_int(b)):
+      return NotImplemented
+    return S(a % b)           # z3 mod == Python % for a positive modulus
+
+  def __neg__(self): return S(-(self.t if z3.is_int(self.t) else _num(self.t)))
   def __pos__(self): return self
 
   def __pow__(self, k):
@@ -219,6 +232,7 @@ class A:
   __hash__ = None
 
   def __pow__(self, k): return A([x ** k for x in self.data], self.shape)
+  def __mod__(self, o): return self._bin(o, lambda a, b: a % b)
 
   # -- shape ops
   def reshape(self, *shape):
@@ -251,10 +265,36 @@ class A:
   def astype(self, dt): return A(self.data, self.shape, dt)
 
   def __getitem__(self, key):
+    if isinstance(key, tuple) and any(isinstance(k, A) for k in key):
+      return self._fancy(key)
+    if isinstance(key, A):
+      return self._fancy((key,))
     idx = np.arange(self.size).reshape(self.shape)[key]
     if np.ndim(idx) == 0:
       return self.data[int(idx)]
     return A([self.data[int(i)] for i in idx.reshape(-1)], idx.shape, self.dtype)
+
+  def _fancy(self, key):
+    """x[i0, i1] with (possibly symbolic) integer index vectors of equal length
+    on the two leading axes -> [len, *rest]"""
+    ks = [A.of(k) for k in key]
+    n = ks[0].shape[0]
+    nk = len(ks)
+    rest = self.shape[nk:]
+    out = []
+    for b in range(n):
+      for r in itertools.product(*[range(s_) for s_ in rest]):
+        # If-chain over every combination of leading indices
+        val = None
+        for lead in itertools.product(*[range(self.shape[d]) for d in range(nk)]):
+          v = _num(self.at(lead + r).t)
+          if val is None:
+            val = v
+          else:
+            cond = z3.And([_num(ks[d].at((b,)).t) == lead[d] for d in range(nk)])
+            val = z3.If(cond, v, val)
+        out.append(S(val))
+    return A(out, (n,) + rest)
 
   # -- reductions
   def _reduce(self, f, axis=None, keepdims=False, where=None):
